@@ -216,6 +216,19 @@ def direct_reads(body):
             t = unwrap_casts(n.get('lhs'))
             if isinstance(t, dict):
                 pure_targets.add(id(t))
+                # the container expression of a subscripted / member target is not read either (its index is)
+                x = t
+                while isinstance(x, dict):
+                    if x.get('k') == 'opcall' and x.get('op') == '[]' and x.get('args'):
+                        x = unwrap_casts(x['args'][0])
+                    elif x.get('k') == 'index':
+                        x = unwrap_casts(x.get('base'))
+                    elif x.get('k') == 'mem':
+                        x = unwrap_casts(x.get('base'))
+                    else:
+                        break
+                    if isinstance(x, dict):
+                        pure_targets.add(id(x))
     out = []
     for n in walk(body):
         if n.get('k') in ('mem',) or (n.get('k') == 'opcall' and n.get('op') == '[]') or n.get('k') == 'index' \
